@@ -140,9 +140,19 @@ class C15(core.Check):
                 if n_ % 2:
                     isa['instructions'][m_]['operands'] = {'count': 1, 'operand_sets': {'list': ['any8']}}
             isa['macros'] = {mns[0] + 'x2': [{'instructions': [mns[0], mns[0]]}], 'm.' + mns[2]: [{'instructions': [mns[2]]}]}
+            # alternatives of one type that accept the same text: whichever is chosen, it is the same one in every run
+            isa['operand_sets']['tie'] = {'operand_values': {
+                'zq_ind0': {'type': 'indirect_register', 'register': 'sp', 'bytecode': {'value': 1, 'size': 4}},
+                'aa_ind8': {'type': 'indirect_register', 'register': 'sp', 'bytecode': {'value': 2, 'size': 4}, 'offset': {'size': 8, 'byte_align': True}},
+                'mm_n8': {'type': 'numeric', 'bytecode': {'value': 3, 'size': 4}, 'argument': {'size': 8, 'byte_align': True}},
+                'bb_n16': {'type': 'numeric', 'bytecode': {'value': 4, 'size': 4}, 'argument': {'size': 16, 'byte_align': True}},
+                'yy_e1': {'type': 'enumeration', 'bytecode': {'size': 4, 'value_dict': {'kx': 5, 'ky': 6}}, 'argument': {'size': 8, 'byte_align': True, 'value_dict': {'kx': 1, 'ky': 2}}},
+                'cc_e2': {'type': 'enumeration', 'bytecode': {'size': 4, 'value_dict': {'kx': 7, 'kz': 8}}, 'argument': {'size': 8, 'byte_align': True, 'value_dict': {'kx': 3, 'kz': 4}}}}}
+            isa['instructions']['tie4'] = {'bytecode': {'value': 9, 'size': 4}, 'operands': {'count': 1, 'operand_sets': {'list': ['tie']}}}
             src = []
             for n_, m_ in enumerate(mns):
                 src.append(m_ + (' 5' if n_ % 2 else ''))
+            src += ['tie4 [sp]', 'tie4 [sp+3]', 'tie4 5', 'tie4 kx', 'tie4 ky', 'tie4 kz', 'tie4 [sp]']
             src.append(mns[0] + 'x2')
             src.append('m.' + mns[2])
             for a_ in range(len(mns)):
